@@ -1,6 +1,173 @@
-//! Hostile / malformed / batched input and raw router events (C03, C06, C09, C14).
-use super::{Cfg, RouterWorld};
+//! Hostile / malformed / batched input and raw router events (C03, C06, C09, C14, C16).
+use super::props::{make_publish, next_pkid};
+use super::{Cfg, ChanEv, RouterWorld};
+use crate::wire::{Props, Tx};
+use rumqttd::verif::{Event, ShadowRequest};
 
-pub fn bad(_w: &mut RouterWorld, _cfg: &Cfg, _ci: usize, _kind: u8) {}
-pub fn batch(_w: &mut RouterWorld, _cfg: &Cfg, _ci: usize, _kind: u8) {}
-pub fn raw(_w: &mut RouterWorld, _cfg: &Cfg, _id: usize, _kind: u8) {}
+pub const BAD_KINDS: u8 = 17;
+
+fn raw_publish_nonutf8() -> Vec<u8> {
+    // PUBLISH QoS0, topic = [0xff, 0xfe], payload "x"
+    vec![0x30, 0x05, 0x00, 0x02, 0xff, 0xfe, b'x']
+}
+
+/// `kind` selects one hostile behaviour; those that make a conforming broker close the
+/// connection are followed by the harness-only `CloseMark`.
+pub fn bad(w: &mut RouterWorld, cfg: &Cfg, ci: usize, kind: u8) {
+    let v5 = w.clients[ci].v5;
+    let txs: Vec<Tx> = match kind {
+        0 => vec![Tx::PubAck(999)],
+        1 => vec![Tx::PubRec(999)],
+        2 => vec![Tx::PubComp(999)],
+        3 => vec![Tx::PubRel(999)],
+        4 => {
+            // acknowledge the second oldest forward first
+            if w.clients[ci].unacked.len() >= 2 {
+                let (pkid, q) = w.clients[ci].unacked[1];
+                vec![if q == 1 { Tx::PubAck(pkid) } else { Tx::PubRec(pkid) }]
+            } else {
+                vec![Tx::PubAck(998)]
+            }
+        }
+        5 => {
+            let pkid = next_pkid(w, ci);
+            vec![Tx::Subscribe { pkid, filters: vec![("$SYS/x".into(), 0)], sub_id: None }, Tx::CloseMark]
+        }
+        6 => vec![Tx::Raw(raw_publish_nonutf8()), Tx::CloseMark],
+        7 => {
+            // empty topic, QoS0 (v4 only; in v5 an empty topic needs an alias)
+            if v5 {
+                vec![Tx::PingReq]
+            } else {
+                vec![Tx::Publish { topic: String::new(), qos: 0, retain: false, dup: false, pkid: 0, payload: b"e".to_vec(), props: None }]
+            }
+        }
+        8 => vec![Tx::Publish { topic: "$x/y".into(), qos: 0, retain: false, dup: false, pkid: 0, payload: b"d".to_vec(), props: None }],
+        9 => {
+            // v5: topic alias 0 is invalid
+            if v5 {
+                let p = Props { alias: Some(0), ..Default::default() };
+                vec![Tx::Publish { topic: "a/b".into(), qos: 0, retain: false, dup: false, pkid: 0, payload: b"a0".to_vec(), props: Some(p) }, Tx::CloseMark]
+            } else {
+                vec![Tx::PingReq]
+            }
+        }
+        10 => {
+            // v5: unmapped alias with empty topic
+            if v5 {
+                let p = Props { alias: Some(7), ..Default::default() };
+                vec![Tx::Publish { topic: String::new(), qos: 0, retain: false, dup: false, pkid: 0, payload: b"a7".to_vec(), props: Some(p) }, Tx::CloseMark]
+            } else {
+                vec![Tx::PingReq]
+            }
+        }
+        11 => {
+            // v5: alias above the broker's maximum
+            if v5 {
+                let p = Props { alias: Some(5000), ..Default::default() };
+                vec![Tx::Publish { topic: "a/b".into(), qos: 0, retain: false, dup: false, pkid: 0, payload: b"a5k".to_vec(), props: Some(p) }, Tx::CloseMark]
+            } else {
+                vec![Tx::PingReq]
+            }
+        }
+        12 => {
+            // v5: a client must not send a subscription identifier in PUBLISH
+            if v5 {
+                let p = Props { sub_ids: vec![3], ..Default::default() };
+                vec![Tx::Publish { topic: "a/b".into(), qos: 0, retain: false, dup: false, pkid: 0, payload: b"sid".to_vec(), props: Some(p) }, Tx::CloseMark]
+            } else {
+                vec![Tx::PingReq]
+            }
+        }
+        13 => {
+            let pkid = next_pkid(w, ci);
+            vec![Tx::Subscribe { pkid, filters: vec![("$share/g".into(), 1)], sub_id: None }]
+        }
+        14 => {
+            // server-to-client packets sent by a client: CONNACK, SUBACK, PINGRESP
+            vec![Tx::Raw(vec![0x20, 0x02, 0x00, 0x00]), Tx::Raw(vec![0x90, 0x03, 0x00, 0x01, 0x00]), Tx::Raw(vec![0xd0, 0x00])]
+        }
+        15 => {
+            // a second CONNECT in mid-session (v4 frame)
+            let mut b = bytes::BytesMut::new();
+            let c = rumqttc::mqttbytes::v4::Connect::new("again");
+            let _ = rumqttc::mqttbytes::v4::Packet::Connect(c).write(&mut b, usize::MAX);
+            if v5 {
+                vec![Tx::PingReq]
+            } else {
+                vec![Tx::Raw(b.to_vec())]
+            }
+        }
+        _ => {
+            // frame the broker's decoder rejects (reserved packet type 0): the link ends
+            vec![Tx::Raw(vec![0x00, 0x00])]
+        }
+    };
+    let _ = cfg;
+    w.send(ci, txs);
+}
+
+pub const BATCH_KINDS: u8 = 6;
+
+pub fn batch(w: &mut RouterWorld, cfg: &Cfg, ci: usize, kind: u8) {
+    let f0 = cfg.filters.first().cloned().unwrap_or_else(|| "a/b".into());
+    let f1 = cfg.filters.get(1).cloned().unwrap_or_else(|| "a/+".into());
+    let txs = match kind {
+        0 => {
+            let p = make_publish(w, cfg, ci, 0, 1, false, false, 0);
+            let pkid = next_pkid(w, ci);
+            vec![p, Tx::Subscribe { pkid, filters: vec![(f0, 1)], sub_id: None }, Tx::PingReq]
+        }
+        1 => {
+            let p = make_publish(w, cfg, ci, 0, 2, false, false, 0);
+            let pkid = next_pkid(w, ci);
+            vec![Tx::PingReq, p, Tx::Unsubscribe { pkid, filters: vec![f0] }]
+        }
+        2 => {
+            // a release for nothing recorded closes the connection; what follows is dropped
+            let pkid = next_pkid(w, ci);
+            vec![Tx::PubRel(777), Tx::Subscribe { pkid, filters: vec![(f1, 0)], sub_id: None }, Tx::PingReq]
+        }
+        3 => {
+            let p = make_publish(w, cfg, ci, 0, 1, false, false, 0);
+            vec![Tx::Disconnect, Tx::PingReq, p]
+        }
+        4 => {
+            let a = make_publish(w, cfg, ci, 0, 1, false, false, 0);
+            let b = make_publish(w, cfg, ci, 0, 2, false, false, 0);
+            let c = make_publish(w, cfg, ci, 0, 1, false, false, 0);
+            vec![a, b, c]
+        }
+        _ => {
+            let pkid = next_pkid(w, ci);
+            let pkid2 = next_pkid(w, ci);
+            vec![
+                Tx::Subscribe { pkid, filters: vec![(f0.clone(), 1), (f1, 2)], sub_id: None },
+                Tx::PingReq,
+                Tx::Unsubscribe { pkid: pkid2, filters: vec![f0] },
+            ]
+        }
+    };
+    w.send(ci, txs);
+}
+
+pub const RAW_KINDS: u8 = 8;
+
+/// raw event for a connection id that no live link of the harness owns
+pub fn raw(w: &mut RouterWorld, _cfg: &Cfg, id: usize, kind: u8) {
+    let ev = match kind {
+        0 => Event::DeviceData,
+        1 => Event::Ready,
+        2 => Event::Disconnect,
+        3 => Event::PublishWill(("c0".to_string(), None)),
+        4 => Event::PublishWill(("nobody".to_string(), None)),
+        5 => Event::SendMeters,
+        6 => Event::SendAlerts,
+        _ => Event::Shadow(ShadowRequest { filter: "a/b".to_string() }),
+    };
+    let mirror = match kind {
+        3 => ChanEv::Will("c0".to_string()),
+        _ => ChanEv::RawOther,
+    };
+    w.send_event(id, ev, mirror);
+}
